@@ -1,6 +1,7 @@
 import Carquet.Proofs.DeltaTop
 import Carquet.Proofs.DeltaBytes
 import Carquet.Proofs.DeltaImplCap
+import Carquet.Proofs.DeltaBytesCap
 /-
 C11 — every encoding decodes its own output: DELTA_BINARY_PACKED (int32 and int64).
 Property statements only; helper lemmas live in Carquet/Proofs/Delta*.lean.
@@ -105,5 +106,68 @@ theorem C11_delta_strings_roundtrip (vs : List (List UInt8)) (bs tail : List UIn
 example : ∃ bs, Impl.DeltaStrings.encode [[1, 2, 3], [1, 2, 4, 5], [], [1, 2, 4, 5], [1, 2, 4]] = .ok bs ∧
     Impl.DeltaStrings.decode bs 5 14 = .ok ([[1, 2, 3], [1, 2, 4, 5], [], [1, 2, 4, 5], [1, 2, 4]], bs.length) := by
   refine ⟨_, rfl, ?_⟩; decide +kernel
+
+/-- Success of the byte-array encoders, characterised: `carquet_delta_length_encode` and
+`carquet_delta_strings_encode` return OK for **every** non-empty list of byte arrays the API can
+express (`num_values` is an `int32_t`; nothing is asked of the values).  The only way they could
+fail on the model — allocation aside — is the fixed scratch buffer their length streams are encoded
+into; its capacity is re-extracted from the source on every run (`Gen.deltaLengthScratch`,
+`Gen.deltaStringsScratch`) and proved sufficient (`40 + 1038·⌈n/128⌉ ≥` the 40-byte header check and
+`27 + 1038` per started block of `C11_delta_encode_succeeds`).  With `num_values ≤ 0` both return
+`CARQUET_ERROR_INVALID_ARGUMENT`.  So success is exactly `values ≠ []`. -/
+theorem C11_delta_bytes_encode_succeeds (vs : List (List UInt8)) (hlen : vs.length ≤ 2147483647) :
+    ((∃ bs, Impl.DeltaLength.encode vs = .ok bs) ↔ vs ≠ []) ∧
+    ((∃ bs, Impl.DeltaStrings.encode vs = .ok bs) ↔ vs ≠ []) := by
+  constructor
+  · constructor
+    · rintro ⟨bs, h⟩ rfl; simp [Impl.DeltaLength.encode] at h
+    · intro hne; exact Impl.DeltaLength.encode_succeeds vs hne hlen
+  · constructor
+    · rintro ⟨bs, h⟩ rfl; simp [Impl.DeltaStrings.encode] at h
+    · intro hne; exact Impl.DeltaStrings.encode_succeeds vs hne hlen
+
+/-- DELTA_LENGTH_BYTE_ARRAY round trip without a condition on the encoder's status: for every
+non-empty list of byte arrays (each shorter than 2 GiB — the `int32_t length` field) the encoder
+succeeds, and the decoder on the produced bytes — followed by anything — returns the byte arrays and
+`bytes_consumed` = bytes produced. -/
+theorem C11_delta_length_roundtrip_total (vs : List (List UInt8)) (tail : List UInt8) (hne : vs ≠ [])
+    (hlen : vs.length ≤ 2147483647) (hv : ∀ v ∈ vs, v.length < 2 ^ 31) :
+    ∃ bs, Impl.DeltaLength.encode vs = .ok bs ∧
+      Impl.DeltaLength.decode (bs ++ tail) vs.length = .ok (vs, bs.length) := by
+  obtain ⟨bs, h⟩ := Impl.DeltaLength.encode_succeeds vs hne hlen
+  exact ⟨bs, h, Impl.DeltaLength.roundtrip vs bs tail hne hlen hv h⟩
+
+/-- DELTA_BYTE_ARRAY round trip without a condition on the encoder's status (the caller's work
+buffer must hold the reconstructed strings). -/
+theorem C11_delta_strings_roundtrip_total (vs : List (List UInt8)) (tail : List UInt8) (work : Nat)
+    (hne : vs ≠ []) (hlen : vs.length ≤ 2147483647) (hv : ∀ v ∈ vs, v.length < 2 ^ 31)
+    (hwork : (vs.map List.length).sum ≤ work) :
+    ∃ bs, Impl.DeltaStrings.encode vs = .ok bs ∧
+      Impl.DeltaStrings.decode (bs ++ tail) vs.length work = .ok (vs, bs.length) := by
+  obtain ⟨bs, h⟩ := Impl.DeltaStrings.encode_succeeds vs hne hlen
+  exact ⟨bs, h, Impl.DeltaStrings.roundtrip vs bs tail work hne hlen hv hwork h⟩
+
+/-- non-vacuity of the hypotheses (and the capacity in force for four values) -/
+example : ([[1, 2, 3], [], [4], [5, 6, 7, 8, 9]] : List (List UInt8)) ≠ [] ∧
+    (∀ v ∈ ([[1, 2, 3], [], [4], [5, 6, 7, 8, 9]] : List (List UInt8)), v.length < 2 ^ 31) ∧
+    Impl.DeltaLength.lengthsCapacity 4 = 1078 ∧ Impl.DeltaStrings.deltaCapacity 129 = 2116 := by
+  refine ⟨by decide, by decide, by decide, by decide⟩
+
+/-- F61, the defect the repair removes: before the fix both encoders encoded their length streams
+into a scratch buffer of `10·n + 100` bytes, while `delta_encoder_flush_block` asks for 14 bytes plus
+every started miniblock written whole.  Three byte arrays of lengths 0, 2^27, 0 — whatever their
+bytes — were refused with `CARQUET_ERROR_ENCODE` by `carquet_delta_length_encode` (one 29-bit
+miniblock: 5 + 14 + 116 > 130), and a 2^27-byte value followed by two empty ones by
+`carquet_delta_strings_encode`; the repaired encoders accept both (theorems above).  Kernel-checked
+on the length level; replayed on the real code by `corpus/C11/F61-delta-bytes-scratch-capacity.ops`
+(`dl_big lens=0,134217728,0` → `st=41` on the unpatched tree). -/
+theorem C11_regression_F61 :
+    (∀ a b c : List UInt8, a.length = 0 → b.length = 134217728 → c.length = 0 →
+       Impl.DeltaLength.encodePreFix [a, b, c] = .error .encode) ∧
+    (∀ b : List UInt8, b.length = 134217728 → Impl.DeltaStrings.encodePreFix [b, [], []] = .error .encode) ∧
+    Impl.DeltaLength.encodeLensWith true [0, 134217728, 0] = .error .encode ∧
+    (Impl.DeltaLength.encodeLensWith false [0, 134217728, 0]).map List.length = .ok (5 + 4 + 4 + 116) :=
+  ⟨Impl.DeltaLength.encodePreFix_fails, Impl.DeltaStrings.encodePreFix_fails, by decide +kernel,
+   by decide +kernel⟩
 
 end Carquet.Properties.C11
